@@ -132,7 +132,7 @@ def run_vector(acc, q, tier):
             for bi, base in enumerate(bases):
                 ref = O.exp_mech_probs(q, eps, sens, 0.5, base)
                 S = float(np.max(np.abs(0.5 * eps / sens * qs)))
-                for form in ('array', 'dict', 'list', 'dict-reordered-base', 'dict-superset-base'):
+                for form in ('array', 'dict', 'list', 'dict-reordered-base', 'dict-superset-base', 'array-reused'):
                     rec = Recorder()
                     m = _mech_instance(False)
                     with E.installed(rec):
@@ -150,12 +150,22 @@ def run_vector(acc, q, tier):
                             if base is not None:
                                 continue
                             out = m.exponential_mechanism(list(qs), eps, sens)
+                        elif form == 'array-reused':
+                            # the caller keeps one float64 score array and selects from it twice: the second draw must use the same distribution
+                            arr = qs.copy()
+                            barr = None if base is None else np.log(base)
+                            with np.errstate(divide='ignore'):
+                                m.exponential_mechanism(arr, eps, sens, base_measure=barr)
+                                rec.p = None
+                                out = m.exponential_mechanism(arr, eps, sens, base_measure=barr)
                         else:
                             with np.errstate(divide='ignore'):
                                 out = m.exponential_mechanism(qs.copy(), eps, sens, base_measure=None if base is None else np.log(base))
                     case = {'q0': q.tolist(), 'prim': 'Mechanism.exponential_mechanism', 'q': qs.tolist(), 'eps': eps, 'sens': sens, 'base': bi, 'form': form}
                     acc.case(case, nontrivial=n >= 2)
                     err = compare(rec.p, ref, S)
+                    if form == 'array-reused' and not np.array_equal(arr, qs):
+                        err = 'the caller\'s score array was modified by the call (now %r)' % (arr.tolist(),)
                     if err is None and form.startswith('dict') and out != keys[0] and bi != 3:
                         err = 'dict form returned %r, expected the key of the drawn index' % (out,)
                     if err:
@@ -209,8 +219,8 @@ def run_vector(acc, q, tier):
                     cl = [('c%d' % i,) for i in range(n)]
                     x = {c: np.array([abs(v), 0.0]) for c, v in zip(cl, q)}
                     est = {c: np.zeros(2) for c in cl}
-                    sizes = {c: 2 for c in cl}
-                    errors = np.array([abs(v) - (2 if penalty else 0) for v in q])
+                    sizes = {c: [2, 3, 6, 4][i % 4] for i, c in enumerate(cl)}    # candidates of different domain size: different penalties
+                    errors = np.array([abs(v) - (sizes[c] if penalty else 0) for c, v in zip(cl, q)])
                     ref = O.exp_mech_probs(errors, eps, 2.0 if bounded else 1.0, 0.5, None)
                     S = float(np.max(np.abs(0.5 * eps * errors)))
                     rec = Recorder()
